@@ -218,6 +218,13 @@ func init() {
 		Body: func() {
 			var b1, b2 broadcast.Broadcast
 			T("W", func() {
+				// degenerate arguments are refused with an error (never nil: no predicate has returned true)
+				if err := b1.Wait(bg, nil); err == nil {
+					fail("C03.nil-without-true", "Wait with a nil predicate returned nil")
+				}
+				if err := b1.Wait(nil, func(func(), func() <-chan struct{}) (bool, error) { return false, nil }); err == nil { //nolint
+					fail("C03.nil-without-true", "Wait with a nil context returned nil although its predicate never returned true")
+				}
 				if err := b1.Wait(bg, func(func(), func() <-chan struct{}) (bool, error) { return false, errE }); err != errE {
 					fail("C03.error-changed", "first Wait: the predicate returned its error at once, Wait returned %v", err)
 				}
